@@ -20,6 +20,7 @@ var c17Specs = []famSpec{
 	{Family: "rand-wide", FreshQ: 2500, FreshT: 100000},
 	{Family: "rect-soup", Pool: 30000, PoolQ: 1500},
 	{Family: "rect-cavity", Pool: 30000, PoolQ: 1500},
+	{Family: "touching", FreshQ: 1500, FreshT: 30000},
 	{Family: "nested-small", Pool: 20000, PoolQ: 1000},
 	{Family: "nested", FreshQ: 1000, FreshT: 30000},
 	{Family: "xproc-a", FreshQ: 400, FreshT: 5000},
